@@ -32,6 +32,9 @@ pub enum Op {
     AddBroadcast { node: u16, key: u8, version: u8, len: usize },
     Renew { node: u16 },
     Skew { node: u16, ppt: u64, lag_ms: u64 },
+    /// periodic persistence: the membership snapshot is saved while the process keeps running; a later
+    /// restart may restore this (by then stale) snapshot
+    Save { node: u16 },
 }
 
 #[derive(Clone, Debug, serde::Serialize, serde::Deserialize)]
@@ -84,7 +87,23 @@ pub fn gen_case(seed: u64, tier: Tier) -> (P, Vec<(u64, Op)>) {
         drop_ppm: if on(&mut s) { s.range(1_000, 200_000) } else { 0 },
         dup_ppm: if on(&mut s) { s.range(1_000, 100_000) } else { 0 },
         corrupt_ppm: if on(&mut s) { s.range(1_000, 50_000) } else { 0 },
+        ..NetCfg::clean(0, 0)
     };
+    // fault kinds added later draw from their own stream, so that the cases of earlier rounds stay what they were
+    let mut s2 = Stream::new(seed, "chaos-params-2");
+    let mut net = net;
+    if s2.chance(1, 3) {
+        net.replay_ppm = s2.range(1_000, 60_000);
+        net.replay_max_ns = s2.range(2, 40) * period * MS;
+    }
+    if s2.chance(1, 3) {
+        net.misdeliver_ppm = s2.range(1_000, 50_000);
+    }
+    if s2.chance(1, 3) {
+        net.spike_ppm = s2.range(1_000, 80_000);
+        net.spike_max_ns = s2.range(1, 6) * period * MS;
+    }
+    let stale_snapshots = s2.chance(1, 3);
     let wc = WorldCfg { n, cfg, codec, policy, hcfg: gen_hcfg(&mut s), net, gen0: 1 };
     let duration_ms = s.range(10, 60) * period;
     let start_ms: Vec<u64> = (0..n).map(|_| s.range(0, 2 * period)).collect();
@@ -116,7 +135,12 @@ pub fn gen_case(seed: u64, tier: Tier) -> (P, Vec<(u64, Op)>) {
                 let a = node(&mut s);
                 let save = s.chance(1, 2);
                 let back = t + s.range(period / 2 + 1, 10 * period);
-                ops.push((back, Op::Restart { node: a, restore: save, announce_to: node(&mut s), gen_delta: *s.pick(&[1i32, 1, 1, 0, -1, 3]) }));
+                let mut restore = save;
+                if stale_snapshots && !save && s2.chance(1, 2) {
+                    ops.push((t.saturating_sub(s2.range(period, 20 * period)), Op::Save { node: a }));
+                    restore = true;
+                }
+                ops.push((back, Op::Restart { node: a, restore, announce_to: node(&mut s), gen_delta: *s.pick(&[1i32, 1, 1, 0, -1, 3]) }));
                 Op::Crash { node: a, save }
             }
             2 => Op::Leave { node: node(&mut s) },
@@ -150,6 +174,7 @@ pub fn execute(p: &P, ops: &[(u64, Op)], seed: u64) -> RunOut {
         w.schedule_op(*t * MS, i);
     }
     let mut saved: BTreeMap<u16, Vec<Member<SimId>>> = BTreeMap::new();
+    let mut stale: BTreeMap<u16, Vec<Member<SimId>>> = BTreeMap::new();
     let end = p.duration_ms * MS;
     let mut events_budget = 400_000u64;
     while let Some(t) = w.peek_time() {
@@ -184,7 +209,7 @@ pub fn execute(p: &P, ops: &[(u64, Op)], seed: u64) -> RunOut {
                         w.spawn(*node, gen);
                         w.stats.inc("fault_restart");
                         if *restore {
-                            if let Some(st) = saved.get(node) {
+                            if let Some(st) = saved.get(node).or_else(|| { w.stats.inc("fault_restart_with_stale_snapshot"); stale.get(node) }) {
                                 // only durable state survives: the membership snapshot saved before the crash
                                 w.call(*node, Input::ApplyMany(st.clone(), false));
                                 w.stats.inc("fault_restart_with_snapshot");
@@ -222,6 +247,11 @@ pub fn execute(p: &P, ops: &[(u64, Op)], seed: u64) -> RunOut {
                         let cur = w.id_of(*node);
                         w.call(*node, Input::ChangeIdentity(SimId::new(cur.addr, cur.gen + 1)));
                         w.stats.inc("user_identity_change");
+                    }
+                }
+                Op::Save { node } => {
+                    if let Some(p) = w.proc(*node) {
+                        stale.insert(*node, p.obs.state.clone());
                     }
                 }
                 Op::Skew { node, ppt, lag_ms } => {
@@ -283,7 +313,14 @@ pub fn exchange_final_states(w: &World, stats: &mut crate::frame::Stats) -> Vec<
         setup.id = p.obs.id;
         setup.acc_twin = false;
         let mut d = Driver::new(setup);
-        let st = p.obs.state.clone();
+        // "for every identity other than its own": a table can come to hold the instance's own current identity
+        // as a Down record (a bit flip fabricates generation g+2 of its address, then it renews twice; or a process
+        // restarted from an old image renews into an identity it already used) - feeding that record back is a
+        // verdict about the instance itself, not part of its view of others
+        let st: Vec<Member<SimId>> = p.obs.state.iter().filter(|m| *m.id() != p.obs.id).cloned().collect();
+        if st.len() != p.obs.state.len() {
+            stats.inc("c01_own_current_identity_listed_in_own_table");
+        }
         d.step(Input::ApplyMany(st.clone(), false));
         if d.dead() {
             return None;
@@ -296,7 +333,7 @@ pub fn exchange_final_states(w: &World, stats: &mut crate::frame::Stats) -> Vec<
         let pre = d.obs.clone();
         let rec = d.step(Input::ApplyMany(st, false));
         if !rec.no_effects() || !rec.result.is_ok() || pre != d.obs {
-            vs.push(Violation { property: "C01", tag: "C01/reapplying-own-state-not-a-noop".into(), detail: format!("node {addr}: apply_many(own full state) on the restored instance: result {:?}, {} effect(s), state changed: {}", rec.result, rec.fx.len(), pre != d.obs), at: w.now });
+            vs.push(Violation { property: "C01", tag: "C01/reapplying-own-state-not-a-noop".into(), detail: format!("node {addr}: apply_many(own full state) on the restored instance: result {:?}, {} effect(s) {:?}, state changed: {} (table before {:?}, after {:?})", rec.result, rec.fx.len(), rec.fx.iter().map(|e| crate::script::describe_effect(e, w.wc.codec)).collect::<Vec<_>>(), pre != d.obs, pre.state, d.obs.state), at: w.now });
         }
         Some(d)
     };
